@@ -38,14 +38,14 @@
 (***************************************************************************)
 EXTENDS Naturals, Integers, Sequences, FixedPoint
 
-ZMin == -4
+ZMin == -16
 ZMax == 4
-LogPhiTab == << -10360101, -6607726, -3783184, -1841022, -693147, -172754, -23013, -1351, -32 >>
-MillsTab == << 4225607, 3283099, 2373216, 1525135, 797885, 287600, 55248, 4438, 134 >>
-PhiTab == << 32, 1350, 22750, 158655, 500000, 841345, 977250, 998650, 999968 >>
-LogPhiMicro(z) == LogPhiTab[z + 5]
-MillsMicro(z) == MillsTab[z + 5]
-PhiMicro(z) == PhiTab[z + 5]
+LogPhiTab == << -131695396, -116131385, -101563034, -87989720, -75410673, -63824934, -53231285, -43628149, -35013437, -27384307, -20736769, -15064998, -10360101, -6607726, -3783184, -1841022, -693147, -172754, -23013, -1351, -32 >>
+MillsTab == << 16062021, 15066087, 14070718, 13076039, 12082214, 11089465, 10098093, 9108523, 8121368, 7137546, 6158483, 5186504, 4225607, 3283099, 2373216, 1525135, 797885, 287600, 55248, 4438, 134 >>
+PhiTab == << 0, 0, 0, 0, 0, 0, 0, 0, 0, 0, 0, 0, 32, 1350, 22750, 158655, 500000, 841345, 977250, 998650, 999968 >>
+LogPhiMicro(z) == LogPhiTab[z + 17]
+MillsMicro(z) == MillsTab[z + 17]
+PhiMicro(z) == PhiTab[z + 17]
 
 Vars == {1, 4, 9, 16}
 SdOf(v) == CHOOSE s \in 1..4 : s * s = v
